@@ -452,6 +452,7 @@ def r4b_listing_examined_completely(ctx):
 
 def r5_errors_propagate(ctx):
     shared.local_listing_errors_propagate(ctx, 'C08.R5')
+    shared.deletion_confined_to_gc_commands(ctx, 'C08.R1')
     shared.no_swallowed_backend_errors(ctx, 'C08.R5')
     shared.gathers_propagate(ctx, 'C08.R5')
 
